@@ -182,7 +182,7 @@ def count_match_arms(text, qual, match_head):
     p = seg.find(match_head)
     if p < 0:
         raise ExtractError('match head lost in %s: %r' % (qual, match_head))
-    ob = seg.index('{', p + len(match_head) - 1)
+    ob = seg.index('{', p + (match_head.index('{') if '{' in match_head else len(match_head) - 1))
     cb = rsx.match_brace(seg, ob)
     body = seg[ob + 1:cb]
     n = 0
